@@ -59,6 +59,7 @@ func c09Lint(src, config string, ignore []string) ([]Diag, error, any, string) {
 	defer w.Cleanup()
 	w.Repo("")
 	w.Write(".github/actionlint.yaml", config)
+	w.Write(".github/workflows/callee.yml", c09Callee)
 	p := w.Write(".github/workflows/w.yml", src)
 	func() {
 		defer func() { pan = recover() }()
@@ -73,6 +74,9 @@ func c09Lint(src, config string, ignore []string) ([]Diag, error, any, string) {
 	}()
 	return ds, err, pan, ""
 }
+
+// c09Callee is the local reusable workflow which call jobs of the compositions may use.
+const c09Callee = "on:\n  workflow_call:\n    inputs:\n      req:\n        type: string\n        required: true\n      num:\n        type: number\n    secrets:\n      tok:\n        required: true\n    outputs:\n      out:\n        value: x\njobs:\n  j:\n    runs-on: ubuntu-latest\n    steps:\n      - run: echo\n"
 
 func unitDiags(ds []Diag, start, end int) []string {
 	var out []string
@@ -147,7 +151,7 @@ var c09Exprs = []string{
 
 func TestC09(t *testing.T) {
 	hx.Main(t, "C09", func(r *hx.Run) {
-		r.Rule = "workflow composed of independently generated jobs (matrix with scalar / array-valued / object-valued rows and include, steps with ids, defaults/shell, runs-on, container, services) with 2-8 values replaced by expressions from a pool biased towards `.*` filters and property/index access on the same paths, plus errors of many rules. Variations of the history before the observed unit: (i) delete jobs the observed job does not (transitively) need, (ii) permute the job order, (iii) delete id-less steps of the observed job / before the observed step, (iv) insert an extra step before the observed step whose only content is another expression, (v) repetition. One third of the compositions are linted with 1-2 -ignore patterns taken from their own messages. Oracle: the multiset of (line relative to the unit start, column, kind, message with embedded positions normalised) attributed to the observed job / step is identical. Non-trivial = the removed/added part has >= 1 diagnostic or contains an expression, and the observed unit has >= 1 diagnostic; distinct = pair of texts."
+		r.Rule = "workflow composed of independently generated jobs (matrix with scalar / array-valued / object-valued rows and include, steps with ids, defaults/shell, runs-on, container, services; call jobs of remote workflows and, inside a repository, of a local reusable workflow with and without an invalid ref) with 2-8 values replaced by expressions from a pool biased towards `.*` filters and property/index access on the same paths, plus errors of many rules. Variations of the history before the observed unit: (i) delete jobs the observed job does not (transitively) need, (ii) permute the job order, (iii) delete id-less steps of the observed job / before the observed step, (iv) insert an extra step before the observed step whose only content is another expression, (v) repetition. One third of the compositions are linted with 1-2 -ignore patterns taken from their own messages. Oracle: the multiset of (line relative to the unit start, column, kind, message with embedded positions normalised) attributed to the observed job / step is identical. Non-trivial = the removed/added part has >= 1 diagnostic or contains an expression, and the observed unit has >= 1 diagnostic; distinct = pair of texts."
 		r.Assumptions = []string{"only unrelated parts are removed: the transitive needs closure of the observed job and steps with ids stay", "job ids are unique; needs only refer to earlier jobs"}
 		r.Check(t, "compositions", hx.N(1500, 40000), func(rt *rapid.T) {
 			g := &wf.G{T: rt, Rare: rapid.Bool().Draw(rt, "rare")}
@@ -212,6 +216,25 @@ func TestC09(t *testing.T) {
 				}
 				pool = append(append([]string{}, pool...), "${{ vars.VAR_A }}", "${{ vars.var_a }}", "${{ vars.VAR_B }}", "${{ vars.NOPE }}", "${{ vars.nope }}")
 			}
+			// with a repository: some call jobs use the local reusable workflow, validly spelled or with a
+			// ref (which is invalid for local calls and reported)
+			regular := map[string]bool{}
+			for _, id := range w.RegularJobs {
+				regular[id] = true
+			}
+			var localCalls []string
+			if config != "" {
+				for _, id := range w.Jobs {
+					if regular[id] || !rapid.Bool().Draw(rt, "localcall") {
+						continue
+					}
+					if j := w.Root.Get("jobs").Get(id); j != nil && j.Get("uses") != nil {
+						j.Get("uses").Val = "./.github/workflows/callee.yml" + rapid.SampledFrom([]string{"", "", "@main"}).Draw(rt, "localref")
+						j.Get("uses").Raw = ""
+						localCalls = append(localCalls, id)
+					}
+				}
+			}
 			ne := rapid.IntRange(2, 8).Draw(rt, "nexpr")
 			for i := 0; i < ne && len(cand) > 0; i++ {
 				lf := cand[rapid.IntRange(0, len(cand)-1).Draw(rt, "leaf")]
@@ -224,6 +247,10 @@ func TestC09(t *testing.T) {
 			jobsNode := w.Root.Get("jobs")
 			// observed job: a regular one
 			obsID := w.RegularJobs[rapid.IntRange(0, len(w.RegularJobs)-1).Draw(rt, "obs")]
+			if len(localCalls) > 0 && rapid.Bool().Draw(rt, "observecall") {
+				obsID = localCalls[rapid.IntRange(0, len(localCalls)-1).Draw(rt, "obscall")]
+				r.Class("observed-job-calls-local-workflow")
+			}
 			obs := jobsNode.Get(obsID)
 			// transitive needs closure
 			keep := map[string]bool{obsID: true}
